@@ -108,6 +108,8 @@ func (cs *gcpClientStream) SendMsg(m interface{}) error {
 			return err
 		}
 		cs.ClientStream = realCS
+		// A previous failed attempt must not shadow the stream for RecvMsg.
+		cs.initStreamErr = nil
 	}
 	cs.Unlock()
 	cs.cond.Broadcast()
